@@ -41,6 +41,8 @@ def program(c):
             ref = {"a": "a()", "b": "b()", "na": "n::a()"}[t]
         else:
             ref = path_of(t) + "()"
+    elif form == "bare":
+        ref = local_name(t) + "()"
     elif form == "use1":
         uses = [f"use {path_of(t)}"]
         ref = local_name(t) + "()"
@@ -65,10 +67,19 @@ def program(c):
     if pos == "ink":
         k_body += ["  " + u for u in uses]
         k_body.append("  pub fn ik(){ " + ref + " }")
-    src = ["mod m {"] + m_body + ["}", "mod k {"] + k_body + ["  pub fn unused(){ 0 }", "}"]
+    if pos == "glet":
+        # the global initialiser follows module m directly, and m ends with its function members
+        m_body = [m_body[2], m_body[0], m_body[1]]
+        src = ["mod k {"] + k_body + ["  pub fn unused(){ 0 }", "}", "mod m {"] + m_body + ["}"]
+    else:
+        src = ["mod m {"] + m_body + ["}", "mod k {"] + k_body + ["  pub fn unused(){ 0 }", "}"]
     if pos == "root":
         src += uses
         src.append("fn dsp(){\n  " + ref + "\n}")
+    elif pos == "glet":
+        # directly after the modules, no function in between
+        src.append("let r = " + ref)
+        src.append("fn dsp(){\n  r\n}")
     elif pos == "ink":
         src.append("fn dsp(){\n  k::ik()\n}")
     else:
